@@ -457,7 +457,9 @@ def _with_computed(desc, ops):
         elif op[0] == "listsub":
             d[op[1]] = [_with_computed(x, inner) for x, inner in zip(desc[op[1]], op[2])]
         elif op[0] in ("block", "blockx"):
-            d.update(_with_computed({k: v for k, v in desc.items()}, op[3]))
+            # the block's operations act on the same context: continue from what has been computed so far (a copy of
+            # the raw description here would overwrite computed values placed in earlier subcontexts)
+            d = _with_computed(d, op[3])
     return d
 
 
